@@ -145,7 +145,7 @@ def setup_check(case):
 
 
 PARTS = {
-    "sim": {"check": check_case, "strategy": cases, "budget": {"quick": 1500, "thorough": 40000}},
+    "sim": {"check": check_case, "strategy": cases, "budget": {"quick": 3000, "thorough": 40000}},
     "setup": {"check": setup_check, "strategy": lambda tier: setup_cases, "budget": {"quick": 300, "thorough": 3000}},
 }
 
